@@ -969,18 +969,33 @@ func dataUses(v ssa.Value) (blocks []*ssa.BasicBlock, instrs []ssa.Instruction) 
 func (a *A) noDataWithoutCheck() {
 	const rule = RuleC
 	r := a.R
-	chain := []struct{ caller, callee string }{
-		{"parsePSIData", "parsePSISection"},
-		{"parseData", "parsePSIData"},
-		{"Demuxer.NextData", "parseData"},
-	}
+	// the producers of the chain; their callers are whatever functions of the package call them today (parsePSIData, parseData,
+	// NextData and any helper a caller's loop has been moved into)
+	chain := []string{"parsePSISection", "parsePSIData", "parseData"}
 	nSites, nUses := 0, 0
-	for _, ln := range chain {
-		f := a.anchor(rule, ln.caller)
-		g := a.anchor(rule, ln.callee)
-		if f == nil || g == nil {
+	type link struct{ f, g *ssa.Function }
+	var links []link
+	for _, name := range chain {
+		g := a.anchor(rule, name)
+		if g == nil {
 			continue
 		}
+		n := 0
+		for _, f := range a.P.SrcFuncs() {
+			for _, ci := range ssau.Calls(f) {
+				if ci.Common().StaticCallee() == g {
+					links = append(links, link{f, g})
+					n++
+					break
+				}
+			}
+		}
+		if n == 0 {
+			r.Bad(rule, "chain/no-data-on-error/"+bare(g), a.fpos(g), "no function of the package calls "+bare(g)+" any more: the checked chain parsePSISection → parsePSIData → parseData → NextData is broken")
+		}
+	}
+	for _, ln := range links {
+		f, g := ln.f, ln.g
 		key := bare(f) + "/no-data-on-error/" + bare(g)
 		errIdx := ssau.ErrorResultIndex(g.Signature)
 		n := 0
